@@ -27,6 +27,9 @@ def repl(m):
     return m.group(0)[:m.group(0).rindex("|", 0, len(m.group(0)) - 1) + 1] + " " + cell + " |"
 
 
-s2 = re.sub(r"^\| (C\d\d) \|.*\|$", repl, s, flags=re.M)
+# only the table of section 4 (other tables of the document have rows starting with a property id too)
+i = s.index("## 4. Per-property design")
+j = s.index("Per property (bounds are also in every query's")
+s2 = s[:i] + re.sub(r"^\| (C\d\d) \|.*\|$", repl, s[i:j], flags=re.M) + s[j:]
 open(p, "w").write(s2)
 print("updated" if s2 != s else "unchanged")
